@@ -283,7 +283,7 @@ func ruleG8b(c *Ctx) *RuleResult {
 			n++
 			key := fmt.Sprintf("%s|segment-parts#%d", FuncName(fn), n)
 			what := "parts are listed under a closed segment only if it is one of the last two"
-			conds := ifsOn(fn, func(v ssa.Value) bool {
+			conds := ifsOnV(fn, func(v ssa.Value) bool {
 				bo, ok := v.(*ssa.BinOp)
 				if !ok || bo.Op != token.LEQ {
 					return false
@@ -528,7 +528,7 @@ func ruleG16(c *Ctx) *RuleResult {
 			}
 			vals = append(vals, v)
 		}
-		same := ifsOn(fn, func(v ssa.Value) bool {
+		same := ifsOnV(fn, func(v ssa.Value) bool {
 			for _, t := range vals {
 				if v == t || (accessPath(v) != "" && accessPath(v) == accessPath(t)) {
 					return true
@@ -585,7 +585,7 @@ func ruleF7d(c *Ctx) *RuleResult {
 			}
 		}
 		// form 2: under an equality test
-		eq := ifsOn(fn, func(v ssa.Value) bool { bo, ok := v.(*ssa.BinOp); return ok && bo.Op == token.EQL })
+		eq := ifsOnV(fn, func(v ssa.Value) bool { bo, ok := v.(*ssa.BinOp); return ok && bo.Op == token.EQL })
 		var ineq []condIf
 		for _, ci := range ifsOn(fn, func(v ssa.Value) bool {
 			bo, ok := v.(*ssa.BinOp)
@@ -660,7 +660,7 @@ func ruleT6e(c *Ctx) *RuleResult {
 			k++
 			key := fmt.Sprintf("%s|%s#%d", FuncName(fn), f.Name(), k)
 			what := "the store of codec." + f.Name() + " is control dependent on a comparison of that field with the new value"
-			conds := ifsOn(fn, func(v ssa.Value) bool {
+			conds := ifsOnV(fn, func(v ssa.Value) bool {
 				switch x := v.(type) {
 				case *ssa.BinOp:
 					if x.Op != token.NEQ && x.Op != token.EQL {
